@@ -80,7 +80,19 @@ var prop = hx.Prop[Case]{
 	Gen: func(t *rapid.T) Case {
 		ops := []Op{{K: "add", Kind: rapid.SampledFrom([]string{"v1", "v2"}).Draw(t, "first"), N: 1}, {K: "add", Kind: "v2", Filter: rapid.SampledFrom([]int{0, 1}).Draw(t, "f2"), N: 1}}
 		ops = append(ops, rapid.SliceOfN(opGen, 5, 40).Draw(t, "ops")...)
-		return Case{History: rapid.SampledFrom([]int{0, 1, 2, 3, 5, 8}).Draw(t, "history"), Ops: ops}
+		// one case in twenty keeps bursts against a stalled-but-open listener (recorded finding) to
+		// check what comes after it: closing that listener must un-wedge everything
+		c := Case{History: rapid.SampledFrom([]int{0, 1, 2, 3, 5, 8}).Draw(t, "history"), Ops: ops, NoExclude: rapid.IntRange(0, 19).Draw(t, "noexclude") == 0}
+		if c.NoExclude {
+			// make sure the situation arises: a fresh v1 or v2 listener stalls, then a burst
+			pre := []Op{{K: "add", Kind: rapid.SampledFrom([]string{"v1", "v2"}).Draw(t, "stallkind"), N: 1}, {K: "stall", L: 2}, {K: "burst", Box: 0}}
+			at := rapid.IntRange(2, len(c.Ops)).Draw(t, "stallat")
+			c.Ops = append(append(append([]Op{}, c.Ops[:at]...), pre...), c.Ops[at:]...)
+			if c.History == 0 {
+				c.History = 3
+			}
+		}
+		return c
 	},
 	Run: run,
 }
@@ -323,6 +335,27 @@ func run(c Case) *hx.Outcome {
 		})
 	}
 	_ = closeL
+	// closeStalled closes every stalled listener at once, as their independent socket writers do
+	closeStalled := func(step int) bool {
+		var wg sync.WaitGroup
+		for _, l := range ls {
+			if l.stalled && !l.closed {
+				wg.Add(1)
+				go func(l *lst) {
+					defer wg.Done()
+					if l.v1 != nil {
+						l.v1.Close()
+					} else {
+						l.v2.Close()
+					}
+					l.mu.Lock()
+					l.closed = true
+					l.mu.Unlock()
+				}(l)
+			}
+		}
+		return guard(step, "Close of the stalled listeners", wg.Wait)
+	}
 
 	// "leave" = the listener's writer stops draining, N more events arrive for it, then it is
 	// closed with those events still buffered
@@ -504,19 +537,20 @@ func run(c Case) *hx.Outcome {
 				for _, l := range ls {
 					if l.stalled && !l.closed {
 						l.attached = false
-						if !closeL(i, l) {
-							return o
-						}
-						l.mu.Lock()
-						l.closed = true
-						l.mu.Unlock()
 					}
+				}
+				if !closeStalled(i) {
+					return o
 				}
 				leftWithBuffer = true
 				stalledOpen = false
 			}
 			blockedHub := false
-			for k := 0; k < 120 && !blockedHub; k++ {
+			burstN := 120
+			if stalledOpen {
+				burstN = 260 // fills the stalled listener's 100-event buffer and the hub's 100-op queue
+			}
+			for k := 0; k < burstN && !blockedHub; k++ {
 				if stalledOpen {
 					for _, l := range ls {
 						if l.stalled {
@@ -528,7 +562,7 @@ func run(c Case) *hx.Outcome {
 				go func() { dispatch(op.Box); close(done) }()
 				wait := hx.ReplyTimeout
 				if stalledOpen {
-					wait = 3 * time.Second
+					wait = time.Second
 				}
 				select {
 				case <-done:
@@ -544,23 +578,20 @@ func run(c Case) *hx.Outcome {
 				leftWithBuffer = true
 				// liveness (2): the gate listener (draining) must get the burst although another
 				// listener is stalled with a full buffer and not yet closed
-				if blockedHub || !waitFor(gate, 3*time.Second) {
+				if blockedHub || !waitFor(gate, time.Second) {
 					gate.mu.Lock()
-					o.Failf(pid+":slow-listener-blocks-hub", "step %d: with a stalled listener (full 100-event buffer, not yet closed) a draining listener received only %d of %d events after 3 s: the hub's broadcast is blocked until the stalled listener is closed", i, len(gate.received), len(gate.expected))
+					o.Failf(pid+":slow-listener-blocks-hub", "step %d: with a stalled listener (full 100-event buffer, not yet closed) a draining listener received only %d of %d events after 1 s: the hub's broadcast is blocked until the stalled listener is closed", i, len(gate.received), len(gate.expected))
 					gate.mu.Unlock()
 				}
-				// the writer gives up: close the stalled listeners so the history can go on
-				for _, l := range ls {
-					if l.stalled && !l.closed {
-						if l.v1 != nil {
-							l.v1.Close()
-						} else {
-							l.v2.Close()
-						}
-						l.mu.Lock()
-						l.closed = true
-						l.mu.Unlock()
-					}
+				// the writer gives up: closing the stalled listeners must un-wedge the hub, however
+				// full its queues are
+				// (each listener has its own writer: they give up independently, i.e. concurrently)
+				if !closeStalled(i) {
+					return o
+				}
+				if !syncHub(hub, hx.ReplyTimeout) {
+					o.Failf(pid+":hub-wedged", "step %d: the stalled listeners were closed, yet Hub.Sync did not return within %v", i, hx.ReplyTimeout)
+					return o
 				}
 				if blockedHub {
 					return o // a dispatch is still in flight in a helper goroutine: stop this case here
@@ -573,13 +604,10 @@ func run(c Case) *hx.Outcome {
 	for _, l := range ls {
 		if l.stalled && !l.closed {
 			l.attached = false
-			if !closeL(len(ops), l) {
-				return o
-			}
-			l.mu.Lock()
-			l.closed = true
-			l.mu.Unlock()
 		}
+	}
+	if !closeStalled(len(ops)) {
+		return o
 	}
 	if !syncHub(hub, hx.ReplyTimeout) {
 		o.Failf(pid+":hub-wedged", "all stalled listeners are closed, yet Hub.Sync did not return within %v: the hub is blocked for ever", hx.ReplyTimeout)
